@@ -20,21 +20,27 @@ Proof.
   rewrite bump_row_name. destruct (str_eqb (mb_name x) n); [reflexivity | exact IH].
 Qed.
 
-Lemma msg_of_new msgs id h np :
-  (forall r, In r msgs -> m_id r < id) ->
-  find (fun r => m_id r =? id) (msgs ++ [mkMsg id h np]) = Some (mkMsg id h np).
+Lemma msg_of_new msgs x :
+  (forall r, In r msgs -> m_id r < m_id x) ->
+  find (fun r => m_id r =? m_id x) (msgs ++ [x]) = Some x.
 Proof.
-  induction msgs as [|x l IH]; intros B; simpl.
+  induction msgs as [|y l IH]; intros B; simpl.
   - now rewrite Z.eqb_refl.
-  - destruct (m_id x =? id) eqn:E.
-    + apply Z.eqb_eq in E. pose proof (B x (or_introl eq_refl)). lia.
+  - destruct (m_id y =? m_id x) eqn:E.
+    + apply Z.eqb_eq in E. pose proof (B y (or_introl eq_refl)). lia.
     + apply IH. intros r Hr. apply B. now right.
 Qed.
+
+Lemma stored_rec_id id p np : m_id (stored_rec id p np) = id.
+Proof. reflexivity. Qed.
+Lemma stored_rec_intact id p np :
+  m_hdrs (stored_rec id p np) = p_hdrs p /\ m_parts (stored_rec id p np) = np /\ m_lost (stored_rec id p np) = 0%nat.
+Proof. unfold stored_rec, stored_rec_gen, store_part. destruct (negb (p_blob_fail p)); auto. Qed.
 
 (** the tail of DeliverMessage once the mailbox row [m] (name [target]) is known *)
 Definition tail (s1 : store) (msgs : list msgrec) (id : Z) (p : parsed) (np : nat) : ustore * bool :=
   let '(s2, msg) := store_message s1 in
-  let msgs' := msgs ++ [mkMsg msg (p_hdrs p) np] in
+  let msgs' := msgs ++ [stored_rec msg p np] in
   let '(s3, ok) := add_message s2 msg id [] in
   (mkU s3 msgs', ok).
 
@@ -46,7 +52,7 @@ Lemma tail_spec s1 msgs target m p np u' ok :
   (ok = false -> links (us u') = links s1) /\
   (ok = true -> exists m' l,
       links (us u') = links s1 ++ [l] /\ find_name (us u') target = Some m' /\ lk_mbox l = mb_id m' /\
-      msg_of u' (lk_msg l) = Some (mkMsg (lk_msg l) (p_hdrs p) np)).
+      msg_of u' (lk_msg l) = Some (stored_rec (lk_msg l) p np)).
 Proof.
   intros Fn B. unfold tail, store_message.
   set (s2 := mkStore (mboxes s1) (links s1) (next_msg s1 + 1) (glog s1) (gused s1) (gser s1)).
@@ -63,7 +69,7 @@ Proof.
         rewrite find_name_bump. change (find_name s2 target) with (find_name s1 target). rewrite Fn. reflexivity.
       * simpl. now rewrite bump_row_id.
       * unfold msg_of. simpl.
-        apply msg_of_new. exact B.
+        apply (msg_of_new msgs (stored_rec (next_msg s1) p np)). exact B.
 Qed.
 
 Lemma find_name_created s n t s' id :
@@ -105,7 +111,7 @@ Lemma deliver_store_spec u target p t u' ok :
   (ok = true -> exists m' l np,
       links (us u') = links (us u) ++ [l] /\ find_name (us u') target = Some m' /\ lk_mbox l = mb_id m' /\
       parts_of (p_shape p) = Some np /\
-      msg_of u' (lk_msg l) = Some (mkMsg (lk_msg l) (p_hdrs p) np)).
+      msg_of u' (lk_msg l) = Some (stored_rec (lk_msg l) p np)).
 Proof.
   intros B. rewrite deliver_store_eq.
   destruct (find_name (us u) target) as [m|] eqn:Fn.
@@ -201,3 +207,16 @@ Proof.
   - apply (inv_home s I).
   - intros m l Hm Hl E. now apply (Inv_uid_below s m l I).
 Qed.
+
+(** ---- the blob-table write fails: the part stays inline ------------------------- *)
+
+Lemma stored_rec_places id p np :
+  m_lost (stored_rec id p np) = 0%nat /\
+  m_blob (stored_rec id p np) = if p_blob_fail p then 0%nat else p_big p.
+Proof. unfold stored_rec, stored_rec_gen, store_part. destruct (p_blob_fail p); auto. Qed.
+
+(** clearing the inline copy before knowing that the blob row exists loses the octets *)
+Lemma clear_first_loses id p np :
+  p_blob_fail p = true ->
+  m_lost (stored_rec_gen true id p np) = p_big p /\ m_blob (stored_rec_gen true id p np) = 0%nat.
+Proof. intros E. unfold stored_rec_gen, store_part. rewrite E. auto. Qed.
